@@ -24,6 +24,7 @@ TECHNIQUE = ("TLA+ table-like specification (exact rationals) checked exhaustive
 
 KEEP = {"checkpoint", "set", "wait", "trigger", "create", "read", "save", "drop"}
 INIT_X2X = (3.0, -5.0)
+NBLOCKS = 64
 
 
 # ----------------------------------------------------------------------------------------------- running real plans
@@ -276,21 +277,21 @@ def md_rec(md, mdchk, scales):
     return rec
 
 
-def random_case(rng):
-    """a random larger request: (kind, mode, axes [(start, stop, num)] as Fractions, lists or None, snake)"""
+def random_case(rng, big=True):
+    """a random larger request: (kind, axes [(start, stop, num)] as Fractions, snake)"""
     kind = rng.choice(["inner", "inner", "outer", "outer", "outer", "x2x", "log"])
 
     def val():
         return Fraction(rng.randint(-40, 40), rng.choice([1, 1, 2, 4]))
     if kind == "inner":
-        n, k = rng.randint(1, 4), rng.randint(2, 12)
+        n, k = rng.randint(1, 4), rng.randint(2, 12 if big else 9)
         axes = [(val(), val(), k) for _ in range(n)]
         snake = [False] * n
     elif kind == "outer":
         n = rng.randint(2, 3)
         while True:
             ks = [rng.randint(1, 7) for _ in range(n)]
-            if 2 <= math.prod(ks) <= 70:
+            if 2 <= math.prod(ks) <= (70 if big else 36):
                 break
         axes = [(val(), val(), k) for k in ks]
         snake = [False] + [rng.random() < 0.6 for _ in range(n - 1)]
@@ -411,20 +412,20 @@ def run(ctx):
                 if len(row["pts"]) >= 4 and any(row["snake"]):
                     ctx.sample({"kind": row["kind"], "axes": row["axes"], "snake": row["snake"], "pts": row["pts"][:6], "md": row["md"]}, limit=2)
     ctx.note(f"{nrows} rows of Scans.tla replayed through the real plans")
-    if nrows != res.distinct:
-        ctx.machinery(f"TLC reported {res.distinct} cases but {nrows} rows were dumped")
+    if nrows != res.distinct - NBLOCKS:       # Scans.tla: NBlocks initial block states + one state per case
+        ctx.machinery(f"TLC reported {res.distinct - NBLOCKS} cases but {nrows} rows were dumped")
 
     # larger random requests: recorded streams -> TLC
     rng = random.Random(ctx.seed)
     recs = []
     with cheap_plan_stacks():
-        for _ in range(25 if ctx.quick else 250):
-            kind, axes, snake = random_case(rng)
+        for _ in range(16 if ctx.quick else 200):
+            kind, axes, snake = random_case(rng, not ctx.quick)
             recs += record_case(rng, kind, axes, snake, lambda: Det("det"), lambda i, p: Mot(f"m{i + 1}", p), hand_runner)
     nhand = len(recs)
     # second device family / real engine: ophyd.sim devices on a RunEngine, stream from msg_hook + start document
-    for _ in range(3 if ctx.quick else 40):
-        kind, axes, snake = random_case(rng)
+    for _ in range(2 if ctx.quick else 30):
+        kind, axes, snake = random_case(rng, not ctx.quick)
         recs += record_case(rng, kind, axes, snake, ophyd_det, ophyd_motor, re_runner)
     ctx.note(f"{nhand} hand-driven and {len(recs) - nhand} RunEngine/ophyd.sim executions recorded for trace validation")
     v = validate_traces("ScansTrace", "ScansTrace.cfg", recs, SD, ctx.out, tag="C25t", timeout=2400)
@@ -437,7 +438,7 @@ def run(ctx):
         ev = r["ev"][upto] if upto < len(r["ev"]) else None
         aspect = "md" if upto == 0 else ("points" if ev and ev["c"] in ("set", "wait") else "skeleton")
         ctx.violation(f"trace:{r['fn']}:{r['kind']}:{aspect}:event={ev['c'] if ev else '?'}",
-                      f"stream of {r['fn']} ({r['kind']}, axes={r['axes']}, snake={r['snake']}) rejected by ScansTrace at event {upto}: {ev}; md={r['md']}",
+                      f"stream of {r['fn']} ({r['kind']}, {'lists=' + str(r['lists']) if r['mode'] == 'list' else 'axes=' + str(r['axes'])}, snake={r['snake']}, init={r['init']}) rejected by ScansTrace at event {upto}: {ev}; md={r['md']}",
                       {"record": r, "accepted_prefix": upto})
     if v.invariant:
         r = recs[v.inv_trace_index] if v.inv_trace_index is not None else None
@@ -453,3 +454,31 @@ def run(ctx):
         "bluesky.utils.Plan's traceback.format_stack bookkeeping is stubbed while plans are driven by hand (speed only)",
         "cycler, numpy and ophyd.sim behave as documented; TLC 1.8.0 evaluates Scans.tla correctly",
     ]
+
+
+def replay(ctx, obj):
+    """./check C25 --replay FILE: re-execute the failing request on the real plan"""
+    if isinstance(obj.get("replay"), dict):     # a file written by ./check: {sig, what, replay}
+        obj = obj["replay"]
+    if "row" in obj:
+        with cheap_plan_stacks():
+            replay_row(ctx, obj["row"], Det("det"), 0)
+            replay_row(ctx, obj["row"], Det("det"), 1)
+        seen = set()
+        for v in ctx.violations:
+            if obj.get("fn") and not v["sig"].startswith(obj["fn"] + ":"):
+                continue
+            if v["sig"] not in seen:
+                print("reproduces:", v["sig"], "--", v["what"])
+            seen.add(v["sig"])
+        if not seen:
+            print("the request is handled as specified (the violation does not reproduce)")
+        return 1 if seen else 0
+    if "record" in obj and obj["record"]:
+        r = obj["record"]
+        v = validate_traces("ScansTrace", "ScansTrace.cfg", [r], SD, ctx.out, tag="C25replay")
+        print(f"recorded stream of {r['fn']} ({r['kind']}): " + ("accepted by ScansTrace" if v.ok else
+              f"REJECTED at event {v.rejected.get(0)} {r['ev'][v.rejected[0]] if 0 in v.rejected and v.rejected[0] < len(r['ev']) else ''} invariant={v.invariant}; md={r['md']}"))
+        return 0 if v.ok else 1
+    print(json.dumps(obj, indent=1)[:4000])
+    return 0
